@@ -204,7 +204,7 @@ def d2(ctx, prog, ci):
     try:
         _d2_structural(scratch, prog, ci)
     except AnalysisError as e:
-        scratch.undecided('C13-D2', 'structure', str(e))
+        scratch.undecided('C13-D2', f'{k0.key}::structure', str(e))
     odd = [o for o in scratch.obs if o.status != _rep.HOLDS and o.construct.startswith(k0.key)]
     for o in odd:
         ctx.note(f'C13-D2 (advisory, kernel decided by evaluation): {o.construct}: {o.detail[:160]}')
